@@ -1084,6 +1084,60 @@ def st_scalars(positions, step=1, shapes=("S",), limit=0x110000):
     return out
 
 
+def utf8_boundary_scalars():
+    """scalar values at the corners of UTF-8: for every lead byte the smallest and the largest scalar it starts, and for
+    three- and four-byte forms the same for the extreme second (and third) bytes"""
+    cps = set()
+    for lead in range(0xC2, 0xE0):
+        base = (lead & 0x1F) << 6
+        cps.update([base, base | 0x3F, base | 0x0A])
+    for lead in range(0xE0, 0xF0):
+        base = (lead & 0x0F) << 12
+        for sec in (0x80, 0x9F, 0xA0, 0xBF):
+            for thr in (0x80, 0xBF, 0x8A):
+                cps.add(base | (sec & 0x3F) << 6 | (thr & 0x3F))
+    for lead in range(0xF0, 0xF5):
+        base = (lead & 0x07) << 18
+        for sec in (0x80, 0x8F, 0x90, 0xBF):
+            for thr in (0x80, 0xBF):
+                for fo in (0x80, 0xBF):
+                    cps.add(base | (sec & 0x3F) << 12 | (thr & 0x3F) << 6 | (fo & 0x3F))
+    out = []
+    for cp in sorted(cps):
+        if cp < 0x80 or cp > 0x10FFFF or 0xD800 <= cp <= 0xDFFF:
+            continue
+        out.append(cp)
+    return out
+
+
+def st_scalars_at(cps, positions, shapes=("S",)):
+    out = []
+    for cp in cps:
+        c = chr(cp)
+        for pos in positions:
+            for sh in shapes:
+                if pos == "name":
+                    ty = hx("t") if sh != "P" else "NuGet"
+                    out.append(case("build %s %s %s -" % (sh, ty, hx("a" + c + "b")), "scalar-" + pos, cp=cp, pos=pos))
+                else:
+                    step_ = {"ns": "ns", "version": "ver", "subpath": "sub"}.get(pos)
+                    script = "q:%s:%s" % (hx("k"), hx("a" + c + "b.")) if pos == "qvalue" else "%s:%s" % (step_, hx("a" + c + "b-"))
+                    out.append(case("build %s %s %s %s" % (sh, hx("t"), hx("n"), script), "scalar-" + pos, cp=cp, pos=pos))
+    return out
+
+
+def st_scalars_parse(cps, shapes=("S",)):
+    """the same scalars through the parser, raw and percent-encoded (upper / lower hex), in every component"""
+    out = []
+    for cp in cps:
+        c = chr(cp)
+        for enc in (c, "".join("%%%02X" % b for b in c.encode("utf-8")), "".join("%%%02x" % b for b in c.encode("utf-8"))):
+            s_ = "pkg:t/n%ss/a%sb@1%s.0?k=v%sw#d%se/f" % (enc, enc, enc, enc, enc)
+            for sh in shapes:
+                out.append(case("parse %s %s" % (sh, hx(s_)), "scalar-parse", s=s_, shape=sh, cp=cp))
+    return out
+
+
 def st_ascii_pairs():
     out = []
     for a in range(128):
@@ -1120,6 +1174,12 @@ def st_scheme_subst(shapes):
     characters and some others): only a letter-case variant of `pkg:` may be taken for the scheme"""
     out = []
     chars = [chr(i) for i in range(128)] + ["\u00ef", "\uff1a", "\u212a", "\u01c5", "\ua789", "\u2236"]
+    # the scheme percent-encoded in part or in whole (a PURL embedded in another URL): not the scheme
+    for head in ("pkg%3A", "pkg%3a", "pkg%3A%2F%2F", "%70kg:", "p%6Bg:", "pk%67%3A", "pkg%253A", "pkg&#58;", "pkg\\u003a"):
+        for rest in ("generic/a%2Fb/name", "generic/name#lib%2Fsrc", "generic/name#a/%2e%2E/b", "npm/foo@1.0", "generic%2Fname"):
+            for sh in shapes:
+                s_ = head + rest
+                out.append(case("parse %s %s" % (sh, hx(s_)), "scheme", s=s_, shape=sh, expect_err=("Pkg.Parse." if sh == "P" else "") + "UnsupportedUrlScheme"))
     for rest in ("npm/foo@1.0", "t/n"):
         strs = []
         for pos in range(4):
